@@ -48,7 +48,7 @@ func c19Behave(kind string) error {
 	return nil
 }
 
-func c19IsDefaultRejection(err error, res string) bool {
+func c19IsDefaultRejection(err error) bool {
 	be, ok := err.(*base.BlockError)
 	return ok && be != nil && be.BlockType() == base.BlockTypeFlow
 }
@@ -61,12 +61,11 @@ type c19Scn struct {
 
 var c19Scns = []c19Scn{{"default-rejection", false, false}, {"configured-fallback", true, false}, {"resource-extractor", false, true}}
 
-func c19Each(f func(s c19Scn, res string, blocked bool, handler string)) {
+func c19Each(f func(s c19Scn, blocked bool, handler string)) {
 	for _, s := range c19Scns {
-		handlers := []string{"ok", "error", "panic"}
-		for _, h := range handlers {
+		for _, h := range []string{"ok", "error", "panic"} {
 			for _, blocked := range []bool{false, true} {
-				f(s, "", blocked, h)
+				f(s, blocked, h)
 			}
 		}
 	}
@@ -84,7 +83,7 @@ func c19Block(res string, blocked bool) {
 func TestVerifC19GrpcUnaryClient(t *testing.T) {
 	defer c19Finish()
 	const method = "/c19.Svc/UnaryClient"
-	c19Each(func(s c19Scn, _ string, blocked bool, handler string) {
+	c19Each(func(s c19Scn, blocked bool, handler string) {
 		res := method
 		fallbackHit := false
 		var opts []Option
@@ -111,7 +110,7 @@ func TestVerifC19GrpcUnaryClient(t *testing.T) {
 					return c19Behave(handler)
 				})
 			})
-			rejected := c19IsDefaultRejection(err, res)
+			rejected := c19IsDefaultRejection(err)
 			if s.fallback {
 				rejected = fallbackHit && err == c19ErrFallback
 			}
@@ -123,7 +122,7 @@ func TestVerifC19GrpcUnaryClient(t *testing.T) {
 func TestVerifC19GrpcStreamClient(t *testing.T) {
 	defer c19Finish()
 	const method = "/c19.Svc/StreamClient"
-	c19Each(func(s c19Scn, _ string, blocked bool, handler string) {
+	c19Each(func(s c19Scn, blocked bool, handler string) {
 		res := method
 		fallbackHit := false
 		var opts []Option
@@ -155,7 +154,7 @@ func TestVerifC19GrpcStreamClient(t *testing.T) {
 						return c19ClientStream{}, nil
 					})
 			})
-			rejected := cs == nil && c19IsDefaultRejection(err, res)
+			rejected := cs == nil && c19IsDefaultRejection(err)
 			if s.fallback {
 				rejected = fallbackHit && cs == nil && err == c19ErrFallback
 			}
@@ -167,7 +166,7 @@ func TestVerifC19GrpcStreamClient(t *testing.T) {
 func TestVerifC19GrpcUnaryServer(t *testing.T) {
 	defer c19Finish()
 	const method = "/c19.Svc/UnaryServer"
-	c19Each(func(s c19Scn, _ string, blocked bool, handler string) {
+	c19Each(func(s c19Scn, blocked bool, handler string) {
 		res := method
 		fallbackHit := false
 		var opts []Option
@@ -197,7 +196,7 @@ func TestVerifC19GrpcUnaryServer(t *testing.T) {
 					return "resp", nil
 				})
 			})
-			rejected := c19IsDefaultRejection(err, res)
+			rejected := c19IsDefaultRejection(err)
 			if s.fallback {
 				rejected = fallbackHit && err == c19ErrFallback
 			}
@@ -209,7 +208,7 @@ func TestVerifC19GrpcUnaryServer(t *testing.T) {
 func TestVerifC19GrpcStreamServer(t *testing.T) {
 	defer c19Finish()
 	const method = "/c19.Svc/StreamServer"
-	c19Each(func(s c19Scn, _ string, blocked bool, handler string) {
+	c19Each(func(s c19Scn, blocked bool, handler string) {
 		res := method
 		fallbackHit := false
 		var opts []Option
@@ -236,7 +235,7 @@ func TestVerifC19GrpcStreamServer(t *testing.T) {
 					return c19Behave(handler)
 				})
 			})
-			rejected := c19IsDefaultRejection(err, res)
+			rejected := c19IsDefaultRejection(err)
 			if s.fallback {
 				rejected = fallbackHit && err == c19ErrFallback
 			}
